@@ -37,6 +37,14 @@ pub struct Emitter {
     indent: usize,
     /// the last trivia emitted ended with a comment that has no newline yet (must not be the end of input)
     pub features: Vec<&'static str>,
+    /// additional comment texts (each starts with `#`, no line terminator, not an `#import` statement) the
+    /// trivia source may use; empty (default) = the built-in list only, no extra random choices are drawn
+    pub extra_comments: Vec<String>,
+    /// string VALUES may be written as block strings when representable (default off)
+    pub block_values: bool,
+    /// block strings may contain backslashes and line breaks as long as the raw text IS the denoted value
+    /// (no `"""`, no trailing backslash/quote, no indented continuation line, no blank first/last line); default off
+    pub block_rich: bool,
 }
 
 fn is_wordy(c: char) -> bool {
@@ -45,7 +53,7 @@ fn is_wordy(c: char) -> bool {
 
 impl Emitter {
     pub fn new(style: Style, rng: Rng) -> Emitter {
-        Emitter { out: String::new(), line: 0, col: 0, rng, style, last_wordy: false, fresh_line: true, indent: 0, features: vec![] }
+        Emitter { out: String::new(), line: 0, col: 0, rng, style, last_wordy: false, fresh_line: true, indent: 0, features: vec![], extra_comments: vec![], block_values: false, block_rich: false }
     }
     fn raw(&mut self, s: &str) {
         let mut chars = s.chars().peekable();
@@ -94,7 +102,14 @@ impl Emitter {
                     let t = texts[self.rng.below(texts.len())];
                     // "#import …" directly after '#' would be parsed as an import statement at definition level; keep a space
                     let t = if t.starts_with("#import") { "# import-like comment" } else { t };
-                    self.raw(t);
+                    if !self.extra_comments.is_empty() && self.rng.chance(2, 3) {
+                        self.feature("trivia:comment-lookalike");
+                        let k = self.rng.below(self.extra_comments.len());
+                        let c = self.extra_comments[k].clone();
+                        self.raw(&c);
+                    } else {
+                        self.raw(t);
+                    }
                     if self.style.unicode_comments && self.rng.chance(1, 3) {
                         self.feature("trivia:comment-unicode");
                         self.raw(" é😀");
@@ -155,6 +170,20 @@ impl Emitter {
     }
 }
 
+/// can `s` be written as the block string `"""s"""` such that the raw text is the denoted value?
+fn block_representable(s: &str, rich: bool) -> bool {
+    let plain = !s.is_empty()
+        && !s.contains("\"\"\"")
+        && !s.contains('\r')
+        && !s.ends_with('"')
+        && !s.starts_with(|c: char| c == ' ' || c == '\t' || c == '\n')
+        && !s.ends_with(|c: char| c == ' ' || c == '\t' || c == '\n');
+    if !rich {
+        return plain && !s.contains('\\') && !s.contains('\n');
+    }
+    plain && !s.ends_with('\\') && s.split('\n').skip(1).all(|l| !l.starts_with(|c: char| c == ' ' || c == '\t'))
+}
+
 pub fn escape_string(s: &str) -> String {
     let mut o = String::from("\"");
     for c in s.chars() {
@@ -196,7 +225,14 @@ pub fn r_value(e: &mut Emitter, v: &mut Val) {
             e.tok(n);
         }
         Val::Int(s, p) | Val::Float(s, p) | Val::Enum(s, p) => *p = e.tok(s),
-        Val::Str(s, p) => *p = e.tok(&escape_string(s)),
+        Val::Str(s, p) => {
+            if e.block_values && block_representable(s, e.block_rich) && e.rng.coin() {
+                e.feature("block-string-value");
+                *p = e.tok(&format!("\"\"\"{s}\"\"\""));
+            } else {
+                *p = e.tok(&escape_string(s));
+            }
+        }
         Val::Bool(b, p) => *p = e.tok(if *b { "true" } else { "false" }),
         Val::Null(p) => *p = e.tok("null"),
         Val::List(vs, p) => {
@@ -372,15 +408,7 @@ fn r_desc(e: &mut Emitter, d: &Option<String>) -> Option<P> {
     match d {
         None => None,
         Some(s) => {
-            let block_ok = e.style.block_desc
-                && !s.is_empty()
-                && !s.contains("\"\"\"")
-                && !s.contains('\\')
-                && !s.contains('\r')
-                && !s.ends_with('"')
-                && !s.starts_with(|c: char| c == ' ' || c == '\t' || c == '\n')
-                && !s.ends_with(|c: char| c == ' ' || c == '\t' || c == '\n')
-                && !s.contains('\n');
+            let block_ok = e.style.block_desc && block_representable(s, e.block_rich);
             let p = if block_ok { e.tok(&format!("\"\"\"{s}\"\"\"")) } else { e.tok(&escape_string(s)) };
             e.nl();
             Some(p)
